@@ -245,8 +245,9 @@ type cliCase struct {
 	MaxFailures uint64
 	MaxRate     int
 	Ignore      bool
-	Drops       bool // constant-mode shape in which drops are certain by construction
-	ViaFile     bool // the same users run described by a config file (limits mapped by `run file`)
+	Drops       bool   // constant-mode shape in which drops are certain by construction
+	ViaFile     bool   // the same users run described by a config file (limits mapped by `run file`)
+	Profile     string // "" | "mem" | "cpu": the run is profiled (--memprofile / --cpuprofile), which must not touch the verdict
 }
 
 var (
@@ -268,6 +269,7 @@ func TestProp_CLIVerdict(t *testing.T) {
 			Drops:       rapid.IntRange(0, 3).Draw(rt, "drops") == 0,
 		}
 		c.ViaFile = rapid.IntRange(0, 2).Draw(rt, "viaFile") == 0
+		c.Profile = rapid.SampledFrom([]string{"", "", "", "mem", "cpu"}).Draw(rt, "profile")
 		var passed, failed atomic.Uint64
 		planFail := func(id uint64) bool {
 			return (c.FailEvery > 0 && id%uint64(c.FailEvery) == 0) || id <= uint64(c.FailFirst)
@@ -330,6 +332,11 @@ func TestProp_CLIVerdict(t *testing.T) {
 		if c.Ignore && !c.ViaFile {
 			args = append(args, "--ignore-dropped")
 		}
+		if c.Profile != "" {
+			prof := filepath.Join(cliDir, fmt.Sprintf("%s-%d.pprof", c.Profile, cliSeq.Add(1)))
+			defer os.Remove(prof)
+			args = append(args, "--"+c.Profile+"profile", prof)
+		}
 		err := app.ExecuteWithArgs(args)
 		s, f := passed.Load(), failed.Load()
 		vc := verdictCase{S: s, F: f, IgnoreDropped: c.Ignore, MaxFailures: c.MaxFailures, MaxRate: c.MaxRate}
@@ -341,6 +348,9 @@ func TestProp_CLIVerdict(t *testing.T) {
 			cl := []string{"users"}
 			if c.ViaFile {
 				cl = append(cl, "via-config-file")
+			}
+			if c.Profile != "" {
+				cl = append(cl, "profiled")
 			}
 			stats.Case("cli", fmt.Sprintf("%+v", c), vc.nontrivial(), cl, func() any { return c })
 			if (err != nil) != want {
